@@ -1497,6 +1497,19 @@ class Inliner:
                     cmap_[name] = int(m.group(1))
         if cmap_:
             _subst_const_params(gb, cmap_)
+        # type parameters of the helper inside the generic arguments of its own calls (`optional_attribute::<T>` called
+        # from `optional_min_max::<i64>` is `optional_attribute::<i64>`)
+        tmap_ = {}
+        if gen and len(gen) == len(gargs):
+            for name, val in zip(gen, gargs):
+                if name not in cmap_ and re.match(r"^[A-Z][A-Za-z0-9]*$", name) and isinstance(val, str) and val and not val.startswith("'") and val != name:
+                    tmap_[name] = val
+        if tmap_:
+            pat_ = re.compile(r"(?<![A-Za-z0-9_:])(%s)(?![A-Za-z0-9_])" % "|".join(re.escape(k) for k in tmap_))
+            for b_ in gb:
+                t_ = b_["term"]
+                if t_["k"] == "call" and isinstance(t_["callee"].get("args"), list):
+                    t_["callee"]["args"] = [pat_.sub(lambda m: tmap_[m.group(1)], a) if isinstance(a, str) else a for a in t_["callee"]["args"]]
         # normalise: an assignment to the return place ends its block
         i = 0
         while i < len(gb):
